@@ -32,6 +32,7 @@ DECIDED = [
     "C10.5 replay: missing/invalid previous results raise; previous results are added to an empty node only, before the decision",
     "C10.6 run_test_node success mapping (False iff error/fail); lost result defaults to error",
     "C10.7 the configuration step of an object creation inherits the root's results (distinct retry identifiers for both steps)",
+    "C10.12 manual tools: every run flag replacing should_run keeps the retry rule (`not finished or should_rerun`)",
     "C10.11 shared_results = own + every bridged node's results (the retry counter and identifiers are derived from its length)",
 ]
 NOT_DECIDED = ["execution sequences over outcome sequences and schedules", "stale results when two runs legitimately share (name, uid)"]
@@ -258,6 +259,47 @@ def creation_ids(ctx: Ctx, rule: str) -> None:
                "" if ok else "the configuration step of a retried object creation reuses the same test identifier (its results no longer start from the root's)")
 
 
+ISETUP = "intertest_setup.py"
+
+
+def replaced_run_policies(ctx: Ctx, rule: str) -> None:
+    """C10.12: the manual tools replace TestNode.should_run by a flag; a replacement that lets a finished test run must keep the retry rule."""
+    mod = ctx.repo.module(ISETUP)
+    found, bad = [], []
+    once = 0
+    for c in ast.walk(mod):
+        if not isinstance(c, ast.Call):
+            continue
+        kw = {k.arg: k.value for k in c.keywords}
+        if not (isinstance(kw.get("flag_type"), ast.Constant) and kw["flag_type"].value == "run" and isinstance(kw.get("flag"), ast.Lambda)):
+            continue
+        lam = kw["flag"]
+        params = [a.arg for a in lam.args.args]
+        if len(params) != 2:
+            bad.append(f"line {c.lineno}: run flag with parameters {params}")
+            continue
+        me, slot = params
+        f = norm.formula(lam.body, None, {me: "self", slot: "slot"})
+        found.append(f"line {c.lineno}: {norm.show(f)[:100]}")
+        if isinstance(lam.body, ast.Constant) and lam.body.value is False:
+            continue
+        atoms = set(norm.atoms_of(f))
+        if "self.is_finished(slot)" in atoms:
+            want = norm.formula(ast.parse("not self.is_finished(slot) or self.should_rerun(slot)", mode="eval").body)
+            if not norm.equivalent(f, want):
+                bad.append(f"line {c.lineno}: a finished test is flagged to run by `{ast.unparse(lam.body)[:120]}` instead of `not finished or should_rerun` "
+                           "(tries left, statuses in the rerun set, none in the stop set)")
+        elif atoms == {"self.is_shared_root()", "slot in self.shared_finished_workers"}:
+            once += 1  # single-step tools: every node exactly once per worker, by design ("the run policy is also simpler")
+        else:
+            bad.append(f"line {c.lineno}: unrecognised run policy `{ast.unparse(lam.body)[:120]}`")
+    if len(found) < 6:
+        raise AnalysisError(f"{ISETUP}: only {len(found)} replaced run policies found")
+    ctx.record(rule, "SIBLING", f"{ISETUP}:update", "every run flag that replaces should_run in the manual tools is constant False, the once-per-worker policy of the "
+               "single-step tools, or `not is_finished(slot) or should_rerun(slot)` (the retry rule survives the replacement)", not bad,
+               {"flags": found, "once_per_worker": once}, "" if not bad else bad[0])
+
+
 def run(ctx: Ctx) -> None:
     ctx.call(N.should_rerun_table, "1")
     ctx.call(retry_ids, "2")
@@ -274,6 +316,7 @@ def run(ctx: Ctx) -> None:
     from . import atoms as A
 
     ctx.call(A.definitions, "11", only=('shared_results','id'))
+    ctx.call(replaced_run_policies, "12")
 
 
 NODE = "cartgraph/node.py"
@@ -298,6 +341,8 @@ MUTANTS = [
     ("negative-tries-accepted", NODE, "        if max_tries < 0:\n            raise ValueError(\"Number of max_tries cannot be less than zero\")\n", "", "1"),
     ("replay-default-tries", NODE, "\"max_tries\", 2 if self.params.get(\"replay\") else 1", "\"max_tries\", 1", "1d"),
     ("config-node-fresh-results", G, "        pre_node.results = list(test_node.results)\n", "", "7"),
+    ("update-from-state-no-retry", "intertest_setup.py", "                            flag=lambda self, slot: not self.is_finished(slot)\n                            or self.should_rerun(slot),\n                            skip_children=True,",
+     "                            flag=lambda self, slot: not self.is_finished(slot),\n                            skip_children=True,", "12"),
     ("fail-summary-inverted", RUNNER, "            if not self.all_results_ok():", "            if self.all_results_ok():", "4r"),
     ("P-verdict-all-any", RUNNER, "        shared_status = True\n        for test in self.job.result.tests:\n            shared_status &= any(\n                STATUSES_MAPPING[t[\"status\"]]\n                for t in self.job.result.tests\n                if t[\"name\"].name == test[\"name\"].name\n            )\n            if not shared_status:\n                return False\n        return True",
      "        return all(\n            any(\n                STATUSES_MAPPING[t[\"status\"]]\n                for t in self.job.result.tests\n                if t[\"name\"].name == test[\"name\"].name\n            )\n            for test in self.job.result.tests\n        )", None),
